@@ -63,6 +63,7 @@ func grammarMain(r *run.Runner, spans bool) {
 	for n := 1; n <= N; n++ {
 		items := shapes.Items(n)
 		total += shapes.Count(n)
+		n := n
 		modes := []gen.ParenMode{gen.Minimal}
 		if n <= 2 {
 			modes = []gen.ParenMode{gen.Minimal, gen.Full, gen.Redundant}
@@ -73,6 +74,12 @@ func grammarMain(r *run.Runner, spans bool) {
 				for _, m := range modes {
 					pr := gen.Print(whereProgram(gen.WrapRoot(e, m)))
 					grammarCase(w, pr.Layout(pr.Uniform(" ")), spans, "expr")
+					if n <= 2 && m == gen.Minimal {
+						// the tree does not depend on layout: no blanks at all, newlines, comments
+						for _, sep := range layoutSeps[1:] {
+							grammarCase(w, pr.Layout(pr.Uniform(sep)), spans, "expr-layout")
+						}
+					}
 				}
 				return !w.Stopped()
 			})
